@@ -1,4 +1,4 @@
-From Coq Require Import List Arith Lia Bool Ring Field String.
+From Coq Require Import List Arith ZArith Lia Bool Ring Field String Permutation.
 From PyOMA.Base Require Import Carrier Cplx.
 From PyOMA.Model Require Import M_merge.
 Import ListNotations.
@@ -184,3 +184,268 @@ Proof.
   rewrite rsum_zero; [field; exact Hn|]. intros y Hy. rewrite (Hall y Hy). ring.
 Qed.
 End P2.
+
+(* ---------- counting: np.delete removes exactly len(idx) rows when idx has no repeats and is in range ---------- *)
+Lemma drop_at_filter {A} (l:list A) idx pos :
+  List.length (drop_at l idx pos) = List.length (filter (fun p => negb (existsb (Nat.eqb p) idx)) (seq pos (List.length l))).
+Proof. revert pos; induction l as [|x t IH]; intros pos; cbn [drop_at List.length seq filter]; [reflexivity|].
+  destruct (existsb (Nat.eqb pos) idx); cbn [negb List.length]; rewrite IH; reflexivity. Qed.
+
+Lemma filter_split_length {A} (f:A->bool) l :
+  (List.length (filter f l) + List.length (filter (fun x => negb (f x)) l) = List.length l)%nat.
+Proof. induction l as [|a l IH]; cbn [filter List.length]; [reflexivity|]. destruct (f a); cbn [negb List.length]; lia. Qed.
+
+Lemma existsb_eqb_In p idx : existsb (Nat.eqb p) idx = true <-> In p idx.
+Proof. rewrite existsb_exists. split.
+  - intros (x & Hx & E). apply Nat.eqb_eq in E. subst; exact Hx.
+  - intros H. exists p. split; [exact H| apply Nat.eqb_refl]. Qed.
+
+Lemma drop_at_count {A} (l:list A) idx :
+  NoDup idx -> (forall i, In i idx -> (i < List.length l)%nat) ->
+  (List.length (drop_at l idx 0) + List.length idx = List.length l)%nat.
+Proof.
+  intros Hnd Hr. rewrite drop_at_filter.
+  pose proof (filter_split_length (fun p => existsb (Nat.eqb p) idx) (seq 0 (List.length l))) as Hs.
+  rewrite seq_length in Hs.
+  assert (Hp: List.length (filter (fun p => existsb (Nat.eqb p) idx) (seq 0 (List.length l))) = List.length idx).
+  { apply Permutation_length. apply NoDup_Permutation.
+    - apply NoDup_filter. apply seq_NoDup.
+    - exact Hnd.
+    - intros x. rewrite filter_In, in_seq, existsb_eqb_In. split; [tauto|].
+      intros H. split; [specialize (Hr x H); lia|exact H]. }
+  lia.
+Qed.
+
+Lemma combine_map_map {A B D} (f:A->B) (h:A->D) (l:list A) : combine (map f l) (map h l) = map (fun x => (f x, h x)) l.
+Proof. induction l as [|a l IH]; cbn [map combine]; [reflexivity|]. rewrite IH. reflexivity. Qed.
+
+Lemma concat_len {A} (l:list (list A)) : List.length (List.concat l) = list_sum (map (@List.length A) l).
+Proof. induction l as [|a l IH]; cbn [List.concat map list_sum]; [reflexivity|]. rewrite app_length, IH. reflexivity. Qed.
+
+Lemma list_sum_cons a l : list_sum (a::l) = (a + list_sum l)%nat.
+Proof. reflexivity. Qed.
+
+Lemma pick_length {A} (d:A) l idx : List.length (pick d l idx) = List.length idx.
+Proof. unfold pick. apply map_length. Qed.
+
+Lemma tab2_ext {A} m n (f h:nat->nat->A) :
+  (forall i j, (i<m)%nat -> (j<n)%nat -> f i j = h i j) -> tab2 m n f = tab2 m n h.
+Proof. intros H. unfold tab2, tab. apply map_ext_in. intros i Hi. apply in_seq in Hi.
+  apply map_ext_in. intros j Hj. apply in_seq in Hj. apply H; lia. Qed.
+
+Lemma nth_map_seq {A} (f:nat->A) n k d : (k<n)%nat -> nth k (map f (seq 0 n)) d = f k.
+Proof. intros Hk. rewrite nth_indep with (d':= f 0%nat) by (rewrite map_length, seq_length; exact Hk).
+  rewrite map_nth, seq_nth by exact Hk. reflexivity. Qed.
+
+Lemma nth_map_in {A B} (f:A->B) l k d d' : (k < List.length l)%nat -> nth k (map f l) d = f (nth k l d').
+Proof. intros Hk. rewrite nth_indep with (d':= f d') by (rewrite map_length; exact Hk). apply map_nth. Qed.
+
+(* ---------- the function as called: tables in, table out ---------- *)
+Section P3.
+Variable R:Type. Variable K:Ops R.
+Hypothesis Fth : field_theory (o0 K) (o1 K) (oadd K) (omul K) (osub K) (oopp K) (odiv K) (oinv K) (@eq R).
+Notation C := (C R).
+
+(* a setup observing the sensors [sens] of the global table G (sensor, mode), mode k scaled by the real factor cf k *)
+Definition obs_mat (G:nat->nat->C) (cf:nat->R) (nm:nat) (sens:list nat) : list (list C) :=
+  map (fun s => map (fun k => cscal K (cf k) (G s k)) (seq 0 nm)) sens.
+Definition setup_spec := ((nat -> R) * list nat * list nat)%type.   (* factors per mode, sensors, reference positions *)
+Definition order_of (s0 rf0:list nat) (others:list setup_spec) : list nat :=
+  pick 0%nat s0 rf0 ++ drop_at s0 rf0 0%nat ++ List.concat (map (fun t => drop_at (snd (fst t)) (snd t) 0%nat) others).
+
+Lemma obs_mat_length G cf nm sens : List.length (obs_mat G cf nm sens) = List.length sens.
+Proof. unfold obs_mat. apply map_length. Qed.
+
+Lemma colk_obs_mat G cf nm sens k : (k < nm)%nat -> colk K k (obs_mat G cf nm sens) = obs R K (fun s => G s k) (cf k) sens.
+Proof. intros Hk. unfold colk, obs_mat, obs. rewrite map_map. apply map_ext. intros s.
+  apply (nth_map_seq (fun k0 => cscal K (cf k0) (G s k0)) nm k (c0 K) Hk). Qed.
+
+Lemma nmodes_obs_mat G cf nm sens : sens <> [] -> nmodes (obs_mat G cf nm sens) = nm.
+Proof. destruct sens as [|a t]; [congruence|]. intros _. unfold nmodes, obs_mat. cbn [map hd].
+  rewrite map_length, seq_length. reflexivity. Qed.
+
+Lemma drop_obs_mat_length G cf nm sens rf : List.length (drop_at (obs_mat G cf nm sens) rf 0) = List.length (drop_at sens rf 0).
+Proof. unfold obs_mat. rewrite drop_at_map, map_length. reflexivity. Qed.
+
+Section Spec.
+Variable G : nat -> nat -> C.
+Variable nm : nat.
+Variable cf0 : nat -> R.
+Variables s0 rf0 : list nat.
+Variable others : list setup_spec.
+Let refS := pick 0%nat s0 rf0.
+Let order := order_of s0 rf0 others.
+Let Ms := map (fun t:setup_spec => obs_mat G (fst (fst t)) nm (snd (fst t))) others.
+Let rfs := map (fun t:setup_spec => snd t) others.
+Hypothesis Hne : rf0 <> [].
+Hypothesis Hnd0 : NoDup rf0.
+Hypothesis Hin0 : forall i, In i rf0 -> (i < List.length s0)%nat.
+Hypothesis Hoth : forall cf s rf, In (cf,s,rf) others ->
+  pick 0%nat s rf = refS /\ NoDup rf /\ forall i, In i rf -> (i < List.length s)%nat.
+Hypothesis Hmodes : forall k, (k < nm)%nat ->
+  cf0 k <> o0 K /\ (forall cf s rf, In (cf,s,rf) others -> cf k <> o0 K) /\
+  cnorm2 K (cdotl K (map (fun s => G s k) refS) (map (fun s => G s k) refS)) <> o0 K.
+
+Lemma s0_nonempty : s0 <> [].
+Proof. destruct rf0 as [|i r]; [congruence|]. intros E. specialize (Hin0 i (or_introl eq_refl)). rewrite E in Hin0. cbn in Hin0. lia. Qed.
+
+Lemma other_facts t : In t others ->
+  List.length (snd t) = List.length rf0 /\ snd (fst t) <> [] /\ NoDup (snd t) /\ (forall i, In i (snd t) -> (i < List.length (snd (fst t)))%nat).
+Proof.
+  destruct t as [[cf s] rf]. intros Ht. cbn [fst snd]. destruct (Hoth cf s rf Ht) as (Hp & Hnd & Hr).
+  assert (Hl: List.length rf = List.length rf0).
+  { rewrite <- (pick_length 0%nat s rf), Hp. unfold refS. apply pick_length. }
+  repeat split; try assumption.
+  destruct rf as [|i r]; [destruct rf0; [congruence|discriminate]|].
+  intros E. specialize (Hr i (or_introl eq_refl)). rewrite E in Hr. cbn in Hr. lia.
+Qed.
+
+Lemma same_modes_ok : same_modes nm Ms = true.
+Proof. unfold same_modes, Ms. apply forallb_forall. intros M HM. apply in_map_iff in HM. destruct HM as (t & <- & Ht).
+  rewrite nmodes_obs_mat by (apply (other_facts t Ht)). apply Nat.eqb_refl. Qed.
+
+Lemma refs_in_range_ok : refs_in_range (obs_mat G cf0 nm s0 :: Ms) (rf0 :: rfs) = true.
+Proof.
+  unfold refs_in_range. cbn [combine forallb fst snd]. apply andb_true_intro. split.
+  - apply forallb_forall. intros i Hi. apply Nat.ltb_lt. rewrite obs_mat_length. apply Hin0; exact Hi.
+  - unfold Ms, rfs. rewrite combine_map_map. apply forallb_forall. intros Mr HM. apply in_map_iff in HM.
+    destruct HM as (t & <- & Ht). cbn [fst snd]. apply forallb_forall. intros i Hi. apply Nat.ltb_lt.
+    rewrite obs_mat_length. apply (other_facts t Ht); exact Hi.
+Qed.
+
+Lemma merge_cols_ok :
+  merge_cols K (obs_mat G cf0 nm s0) Ms rf0 rfs nm = map (fun k => obs R K (fun s => G s k) (cf0 k) order) (seq 0 nm).
+Proof.
+  unfold merge_cols, merge_modes. rewrite map_map. apply map_ext_in. intros k Hk. apply in_seq in Hk. cbn [fst snd].
+  assert (Hk' : (k < nm)%nat) by lia. destruct (Hmodes k Hk') as (Hc0 & Hcs & Hgg).
+  rewrite (colk_obs_mat G cf0 nm s0 k Hk').
+  unfold Ms, rfs. rewrite map_map, combine_map_map.
+  set (rest := map (fun t:setup_spec => (fst (fst t) k, snd (fst t), snd t)) others).
+  replace (map (fun x : setup_spec => (colk K k (obs_mat G (fst (fst x)) nm (snd (fst x))), snd x)) others)
+    with (map (fun t : R * list nat * list nat => (obs R K (fun s => G s k) (fst (fst t)) (snd (fst t)), snd t)) rest).
+  2:{ unfold rest. rewrite map_map. apply map_ext. intros t. cbn [fst snd]. rewrite (colk_obs_mat _ _ _ _ k Hk'). reflexivity. }
+  rewrite (merge_recovers_global R K Fth (fun s => G s k) (cf0 k) s0 rf0 rest).
+  - unfold order, order_of. do 3 f_equal. unfold rest. rewrite map_map. reflexivity.
+  - intros c s rf Hi. unfold rest in Hi. apply in_map_iff in Hi. destruct Hi as ([[cf s'] rf'] & E & Hi). cbn [fst snd] in E.
+    inversion E; subst. split; [apply (Hcs cf s rf Hi) | apply (Hoth cf s rf Hi)].
+  - exact Hc0.
+  - exact Hgg.
+  - exact Hin0.
+  - intros c s rf Hi. unfold rest in Hi. apply in_map_iff in Hi. destruct Hi as ([[cf s'] rf'] & E & Hi). cbn [fst snd] in E.
+    inversion E; subst. apply (Hoth cf s rf Hi).
+Qed.
+
+Lemma rows_act_ok : (List.length rf0 + rows_act (obs_mat G cf0 nm s0 :: Ms) (rf0 :: rfs))%nat = List.length order.
+Proof.
+  unfold rows_act, order, order_of. cbn [combine map fst snd]. rewrite list_sum_cons.
+  rewrite !app_length, pick_length, concat_len, drop_obs_mat_length. do 2 f_equal.
+  unfold Ms, rfs. rewrite combine_map_map, !map_map. f_equal. apply map_ext. intros t. cbn [fst snd].
+  apply drop_obs_mat_length.
+Qed.
+
+Lemma rows_code_ok : rows_code (List.length rf0) (obs_mat G cf0 nm s0 :: Ms) = Z.of_nat (List.length order).
+Proof.
+  rewrite <- rows_act_ok. unfold rows_code, rows_act, zsum. cbn [combine map fold_right fst snd]. rewrite list_sum_cons.
+  rewrite obs_mat_length, drop_obs_mat_length.
+  pose proof (drop_at_count s0 rf0 Hnd0 Hin0) as H0.
+  assert (Hrest : fold_right Z.add 0%Z (map (fun M : list (list C) => (Z.of_nat (List.length M) - Z.of_nat (List.length rf0))%Z) Ms)
+                  = Z.of_nat (list_sum (map (fun Mr : list (list C) * list nat => List.length (drop_at (fst Mr) (snd Mr) 0)) (combine Ms rfs)))).
+  { unfold Ms, rfs. rewrite combine_map_map, !map_map. cbn [fst snd].
+    pose proof other_facts as Hf. clear - Hf. induction others as [|t l IH]; cbn [map fold_right]; [reflexivity|].
+    rewrite list_sum_cons, IH by (intros t' Ht'; apply Hf; right; exact Ht').
+    destruct (Hf t (or_introl eq_refl)) as (Hl & _ & Hnd & Hr).
+    rewrite obs_mat_length, drop_obs_mat_length.
+    pose proof (drop_at_count (snd (fst t)) (snd t) Hnd Hr) as Hc. lia. }
+  rewrite Hrest. lia.
+Qed.
+
+Theorem merge_mode_shapes_spec :
+  merge_mode_shapes K (obs_mat G cf0 nm s0 :: Ms) (rf0 :: rfs)
+  = MergeOk (tab2 (List.length order) nm (fun r k => cscal K (cf0 k) (G (nth r order 0%nat) k))).
+Proof.
+  unfold merge_mode_shapes. rewrite (nmodes_obs_mat G cf0 nm s0 s0_nonempty).
+  rewrite same_modes_ok. cbn [negb].
+  replace (Nat.leb (List.length Ms) (List.length rfs)) with true
+    by (unfold Ms, rfs; rewrite !map_length; symmetry; apply Nat.leb_refl).
+  cbn [negb]. rewrite refs_in_range_ok. cbn [negb]. cbv zeta.
+  rewrite rows_act_ok, rows_code_ok, Z.eqb_refl, merge_cols_ok. f_equal.
+  apply tab2_ext. intros r k Hr Hk.
+  rewrite (nth_map_seq (fun k0 => obs R K (fun s => G s k0) (cf0 k0) order) nm k [] Hk).
+  unfold obs. rewrite (nth_map_in (fun s => cscal K (cf0 k) (G s k)) order r (c0 K) 0%nat Hr). reflexivity.
+Qed.
+End Spec.
+End P3.
+
+(* ---------- merged frequencies / damping: arithmetic mean, population variance, dispersion = std/mean ---------- *)
+Section P4.
+Variable R:Type. Variable K:Ops R.
+Hypothesis Fth : field_theory (o0 K) (o1 K) (oadd K) (omul K) (osub K) (oopp K) (odiv K) (oinv K) (@eq R).
+Add Field FfM4 : Fth.
+Local Open Scope K_scope.
+Notation "0" := (o0 K) : K_scope. Notation "1" := (o1 K) : K_scope.
+Infix "+" := (oadd K) : K_scope. Infix "*" := (omul K) : K_scope. Infix "-" := (osub K) : K_scope. Infix "/" := (odiv K) : K_scope.
+
+Definition sqdev (m:R) (l:list R) : list R := map (fun x => (x - m) * (x - m)) l.
+(* what np.std(..., ddof=1)**2 would be: the same sum of squares over n - 1 *)
+Definition svar (n:R) (l:list R) : R := rsum K (sqdev (mean K n l) l) / (n - 1).
+
+Lemma mean_spec n l : n <> 0 -> n * mean K n l = rsum K l.
+Proof. intros Hn. unfold mean. field. exact Hn. Qed.
+
+Lemma pvar_spec n l : n <> 0 -> n * pvar K n l = rsum K (sqdev (mean K n l) l).
+Proof. intros Hn. unfold pvar, sqdev. cbv zeta. field. exact Hn. Qed.
+
+Lemma cov2_spec n l : mean K n l <> 0 -> cov2 K n l * (mean K n l * mean K n l) = pvar K n l.
+Proof. intros Hm. unfold cov2. field. exact Hm. Qed.
+
+Lemma sqdev_expand m l :
+  rsum K (sqdev m l) = rsum K (map (fun x => x * x) l) - (1+1) * m * rsum K l + m * m * ofnat K (List.length l).
+Proof. unfold sqdev, ofnat. induction l as [|a l IH]; cbn [map rsum List.length repeat]; [ring|]. rewrite IH. ring. Qed.
+
+(* Koenig-Huygens form: mean of squares minus square of mean *)
+Lemma pvar_alt l : let n := ofnat K (List.length l) in
+  n <> 0 -> pvar K n l = rsum K (map (fun x => x * x) l) / n - mean K n l * mean K n l.
+Proof.
+  intros n Hn. unfold pvar. cbv zeta. change (map (fun x => (x - mean K n l) * (x - mean K n l)) l) with (sqdev (mean K n l) l).
+  rewrite sqdev_expand. fold n. unfold mean. field. exact Hn.
+Qed.
+
+(* the population variance is NOT the ddof=1 estimate, unless the values do not vary at all *)
+Lemma pvar_not_sample n l : n <> 0 -> n - 1 <> 0 -> pvar K n l <> 0 -> svar n l <> pvar K n l.
+Proof.
+  intros Hn Hn1 Hp E. apply Hp. unfold svar in E. unfold pvar in *. cbv zeta in *.
+  change (map (fun x => (x - mean K n l) * (x - mean K n l)) l) with (sqdev (mean K n l) l) in *.
+  set (S := rsum K (sqdev (mean K n l) l)) in *.
+  assert (H1: S = (n - 1) * (S / (n - 1))) by (field; exact Hn1).
+  assert (H2: S = n * (S / n)) by (field; exact Hn).
+  rewrite E in H1.
+  transitivity (n * (S / n) - (n - 1) * (S / n)); [ring|]. rewrite <- H1, <- H2. ring.
+Qed.
+
+Theorem poser_stats_spec (rows:list (list R)) (k:nat) :
+  let n := ofnat K (List.length rows) in
+  let col := map (fun r => nth k r 0) rows in
+  let mc := nth k (poser_stats K rows) (0, 0) in
+  (k < List.length (hd [] rows))%nat -> n <> 0 ->
+  n * fst mc = rsum K col /\
+  n * pvar K n col = rsum K (sqdev (fst mc) col) /\
+  pvar K n col = rsum K (map (fun x => x * x) col) / n - fst mc * fst mc /\
+  (fst mc <> 0 -> snd mc * (fst mc * fst mc) = pvar K n col) /\
+  (n - 1 <> 0 -> pvar K n col <> 0 -> svar n col <> pvar K n col).
+Proof.
+  intros n col mc Hk Hn.
+  assert (Emc : mc = (mean K n col, cov2 K n col)).
+  { unfold mc, poser_stats. cbv zeta.
+    rewrite (nth_map_seq (fun k0 => (mean K (ofnat K (List.length rows)) (map (fun r => nth k0 r 0) rows),
+                                     cov2 K (ofnat K (List.length rows)) (map (fun r => nth k0 r 0) rows)))
+                         (List.length (hd [] rows)) k (0,0) Hk). reflexivity. }
+  rewrite Emc. cbn [fst snd].
+  assert (Hlen : n = ofnat K (List.length col)) by (unfold n, col; rewrite map_length; reflexivity).
+  repeat split.
+  - apply mean_spec; exact Hn.
+  - apply pvar_spec; exact Hn.
+  - rewrite Hlen. apply pvar_alt. rewrite <- Hlen. exact Hn.
+  - apply cov2_spec.
+  - apply pvar_not_sample; exact Hn.
+Qed.
+End P4.
